@@ -718,3 +718,45 @@ def mon_push(ops, lines):
                     return ("C14-not-retried: message %r failed on %r in round %d and was not POSTed in round %d"
                             % (unhx(key[1]), unhx(key[0]), r0, rnd))
     return None
+
+
+def mon_racing_namespace(ops, lines):
+    """C10 under racing clients, read off the answers: once a create (OK or ALREADY_EXISTS) or a delete (OK) has
+    returned, the same client's next request observes it; of several racing creates of one absent name exactly one
+    succeeds; of racing deletes of one present name at least one succeeds and the rest answer OK or NOT_FOUND."""
+    creates, deletes = {}, {}
+    for i, (o, r) in enumerate(zip(ops, lines)):
+        if r.startswith("!"):
+            return "C10-noanswer: op %d got %s" % (i, r[:60])
+        ot, rt = o.split(" "), r.split(" ")
+        if ot[0] != "JOIN" or rt[2:3] != ["SEQ"]:
+            continue
+        if rt[2:] == ["-"]:
+            return "C10-pending: call %s has no answer" % ot[1]
+        parts = " ".join(rt[3:]).split(" ;; ")
+        if len(parts) != 2:
+            continue
+        a, b = parts[0].split(" "), parts[1].split(" ")
+        src = next(x for x in ops if x.startswith("BG %s " % ot[1])).split(" ")
+        name = src[4]
+        if a[0] in ("DS", "DT"):
+            deletes.setdefault((a[0], name), []).append(a[1])
+            if a[1] == "0" and b[1] != "5":
+                return ("C10-delete-not-observed: %s of %r returned OK but the same client's next Get answered %s"
+                        % (a[0], unhx(name), b[1]))
+            if a[1] not in ("0", "5"):
+                return "C10-delete-status: racing %s answered %s" % (a[0], a[1])
+        if a[0] in ("CS", "CT"):
+            creates.setdefault((a[0], name), []).append(a[1])
+            if a[1] in ("0", "6") and b[1] != "0":
+                return ("C10-create-not-observed: %s of %r returned %s but the same client's next Get answered %s"
+                        % (a[0], unhx(name), "OK" if a[1] == "0" else "ALREADY_EXISTS", b[1]))
+            if a[1] not in ("0", "6"):
+                return "C10-create-status: racing %s answered %s" % (a[0], a[1])
+    for (k, name), codes in creates.items():
+        if codes.count("0") != 1:
+            return "C10-create-not-atomic: %d of %d racing %s of %r succeeded" % (codes.count("0"), len(codes), k, unhx(name))
+    for (k, name), codes in deletes.items():
+        if codes.count("0") < 1:
+            return "C10-delete-lost: none of %d racing %s of %r succeeded" % (len(codes), k, unhx(name))
+    return None
